@@ -107,6 +107,7 @@ def project(x, with_values=True):
         p.update({"kind": "QBits", "qt": x.qtype.name, "axis": AX.get(x.axis, str(x.axis)), "pshape": list(x._data.shape),
                   "sshape": list(x._scale.shape), "pdtype": "uint8", "sdtype": FMT_NAME.get(x._scale.dtype, str(x._scale.dtype)),
                   "storage": "uint8", "gs": x._group_size if x._group_size is not None else 0,
+                  "zshape": list(x._zeropoint.shape), "zdtype": str(x._zeropoint.dtype).replace("torch.", ""),
                   "packed_rows": int(x._data._data.shape[0])})
         if with_values:
             p["codes"] = [[1 if c else 0, int(c)] for c in x._data.unpack().reshape(-1).tolist()]
